@@ -14,7 +14,7 @@ NATIVE_TUS = _b.ALL_NATIVE + ['instance', 'functions', 'kerl']
 FUNCTIONS = ['Value::do_exec', 'Value::do_sha256/do_ripemd160/do_hash256/do_hash160/do_tagged_hash', 'Value::do_reverse/do_len/do_prefix_compact_size', 'Value::hex_str/int_value', 'Value::do_add/do_sub, arith_uint256', 'fn_tf + tfs table', 'kerl_make_argcv',
              'EncodeBase58(Check)/DecodeBase58(Check)', 'bech32::Encode/Decode', 'Value(const char*) inline-function parser']
 ASSUMPTIONS = ['hash compression functions uninterpreted on symbolic input (the digest arithmetic itself is outside; wiring, padding, composition are inside)', 'allocation never fails', 'printf-family output captured by the process-environment model']
-OUTSIDE = ['base58check round trips (the 4 checksum bytes are uninterpreted-hash terms that the base-58 long division must then divide: no verdict within 240 s) - base58check is exercised concretely in the encoder validation only', 'Jacobi symbol, pubkey combine/tweak, verify-sig (libsecp256k1 / 256-bit data-dependent loops)', 'base58 payloads longer than 2 bytes (symbolic division by 58 in nested loops: 3 bytes returns unknown after 80 s)', 'bech32 round trips beyond 2 data symbols in quick / 3 in thorough (n=3 exceeds 240 s); corruption detection is decided for 0 and 2 data symbols', 'CPU-specific SHA back ends']
+OUTSIDE = ['base58check round trips THROUGH the digit conversion (the 4 checksum bytes are uninterpreted-hash terms that the base-58 long division must then divide: no verdict within 240 s): the checksum logic is decided with the digit conversion stubbed, the digit conversion without checksum', 'Jacobi symbol, pubkey combine/tweak, verify-sig (libsecp256k1 / 256-bit data-dependent loops)', 'base58 payloads longer than 2 bytes (symbolic division by 58 in nested loops: 3 bytes returns unknown after 80 s)', 'bech32 round trips beyond 2 data symbols in quick / 3 in thorough (n=3 exceeds 240 s); corruption detection is decided for 0 and 2 data symbols', 'CPU-specific SHA back ends']
 BOUNDS = 'hash transforms: message lengths {0,1,31,32,55,56,64}; reverse/len/prefix: lengths {0,1,2,5,252,253}; add/sub: 32-byte operands symbolic without group, low 6 bytes symbolic with a symbolic group, 32-byte residues symbolic with the groups n, p (secp256k1) and 2^256-1; base58: payload 0..3 bytes incl. leading zeros; bech32/bech32m: 0..6 five-bit symbols, every single-character substitution (any printable character, either case) at every position'
 
 def setup(E):
@@ -43,6 +43,8 @@ def obligations(tier, seed):
     obs.append(dict(name='expr/hash160(0x..)', kind='expr', fun='hash160', L=3))
     for L in (0, 1, 2):
         obs.append(dict(name='base58/roundtrip/L%d/chk0' % L, kind='b58', L=L, chk=0))
+    # base58check: the checksum logic on its own (the base-58 digit conversion is cut out by a stub, so payload and checksum bytes can be fully symbolic)
+    for L in (0, 1, 20, 21, 33): obs.append(dict(name='base58check/decode-checksum/L%d' % L, kind='b58chk_dec', L=L)); obs.append(dict(name='base58check/encode-checksum/L%d' % L, kind='b58chk_enc', L=L))
     for n in (0, 1) if tier == 'quick' else (0, 1, 2, 3):
         for m in (0, 1): obs.append(dict(name='bech32/roundtrip/n%d/m%d' % (n, m), kind='bech', n=n, m=m))
     for m in (0, 1):
@@ -182,7 +184,54 @@ def prep(ob, V=None):
         return 'w_bech32_decode', [('in', s + [0]), ('out', 300)], io, lambda ctx: dict(enc=0), assume, dict(vals=vals, repl=repl)
     raise Exception(k)
 
+def vec_set(E, st, vec, bs):
+    """std::vector<unsigned char> at `vec` := bs (fresh storage from operator new)"""
+    a = E.alloc(st, max(len(bs), 1), 'heap')
+    for i, b in enumerate(bs): E.store(st, a + i, 1, b)
+    E.store(st, vec, 8, a); E.store(st, vec + 8, 8, a + len(bs)); E.store(st, vec + 16, 8, a + len(bs))
+
+def run_b58chk(E, ob, V=None):
+    sym = V is None
+    def var(n): return z3.BitVec(n, 8) if sym else V.get(n, 0)
+    L = ob['L']; payload = [var('b%d' % i) for i in range(L)]
+    saved = {k: E.stubs.get(k) for k in ('_ZL12DecodeBase58PKcRSt6vectorIhSaIhEEi', '_Z12EncodeBase58B5cxx114SpanIKhE')}
+    try:
+        if ob['kind'] == 'b58chk_dec':
+            chk = [var('k%d' % i) for i in range(4)]
+            def dec_stub(E_, st, fr, I, A): vec_set(E_, st, A[1], payload + chk); return 1          # what the digit conversion would deliver: payload || checksum
+            E.stubs['_ZL12DecodeBase58PKcRSt6vectorIhSaIhEEi'] = dec_stub
+            runs = hlib.spec_engine(E, 'w_b58_decode', [('in', list(b'x') + [0]), ('u32', 1), ('out', 300)])
+            m = {id(r[0]): r for r in runs}
+            def io(f):
+                _, ret, outs = m[id(f)]
+                if ret is None: return ('crash', f.result[1] if f.result else 'none', '')
+                n = hlib.uniq(E, f, ret); raw = outs[0](n)
+                rp = sesslib.Rep(lambda off, n_: (hlib.le(raw[off:off + n_]) if n_ > 1 else raw[off]), lambda t: hlib.uniq(E, f, t))
+                return dict(ok=rp.u32(), back=rp.bytes())
+            def ref(ctx):
+                want = hashref.hash256(payload)[:4]
+                if ctx.branch(R.items_equal(chk, want)): return dict(ok=1, back=list(payload))
+                return dict(ok=0, back=[])
+            return sesslib.diff_paths(E, ob['name'], [r[0] for r in runs], io, ref, [], dict(data=payload, chk=chk), lambda a, b: 'C14:base58check:decode-checksum')
+        else:
+            def enc_stub(E_, st, fr, I, A):
+                sret, p, n = A
+                if is_sym(n): raise Exception('symbolic length')
+                st.aux['b58in'] = [E_.load(st, p + i, 1) for i in range(n)]
+                E_.mk_empty_string(E_, st, sret); return None
+            E.stubs['_Z12EncodeBase58B5cxx114SpanIKhE'] = enc_stub
+            runs = hlib.spec_engine(E, 'w_tf_data', [('in', list(b'base58chkenc') + [0]), ('in', payload), ('u32', L), ('out', 300)])
+            def io(f):
+                if f.result is None or f.result[0] != 'ret': return ('crash', f.result[1] if f.result else 'none', '')
+                return dict(encoded_input=f.aux.get('b58in', 'never-called'))
+            return sesslib.diff_paths(E, ob['name'], [r[0] for r in runs], io, lambda ctx: dict(encoded_input=list(payload) + hashref.hash256(payload)[:4]), [], dict(data=payload), lambda a, b: 'C14:base58check:encode-checksum')
+    finally:
+        for k, v in saved.items():
+            if v is None: E.stubs.pop(k, None)
+            else: E.stubs[k] = v
+
 def run(E, ob):
+    if ob['kind'] in ('b58chk_dec', 'b58chk_enc'): return run_b58chk(E, ob)
     fn, spec, io, ref, assume, inputs = prep(ob)
     return hlib.flat_check(E, ob['name'], fn, spec, io, ref, assume, inputs, lambda a, b: 'C14:%s:%s' % (ob['kind'], ob.get('fun', '')) + (':group' if ob.get('grp') else ''))
 
@@ -223,6 +272,7 @@ def validate(E, lib):
         class RV(dict):
             def get(s, k, d=0): return rnd.randrange(32) if k.startswith('v') else (ord('q') if k == 'repl' else rnd.randrange(256))
         V = RV()
+        if ob['kind'] in ('b58chk_dec', 'b58chk_enc'): continue          # these run with a stubbed digit conversion: nothing to compare natively
         fn, spec, io, ref, assume, inputs = prep(ob, V)
         if ob['kind'] == 'arith' and ob['grp']: continue
         if fn == 'w_fn_tf':
